@@ -177,6 +177,8 @@ expr_t::ptr_op_t expr_t::op_t::compile(scope_t& scope, const int depth,
          sym = sym->has_right() ? sym->right() : NULL) {
       ptr_op_t varname = sym->kind == O_CONS ? sym->left() : sym;
 
+      if (! varname)
+        throw_(calc_error, _("Invalid function or lambda parameter: <empty>"));
       if (! varname->is_ident()) {
         std::ostringstream buf;
         varname->dump(buf, 0);
